@@ -1,7 +1,7 @@
 (* C20: start-up configuration model entry points.
-   cfkey <hex>                                  -> code
-   cfval <11 hex strings> | <5 ints>            -> validate-code ingresses-code router-code
-   cfrun <45 string channels> | <10 typed channels> | <jwk oracle> | <redis oracle> | <fetch oracle>
+   cfkey <v1 v2 v3> <hex>                       -> code
+   cfval <v1 v2 v3> | <11 hex strings> | <5 ints>  -> validate-code ingresses-code router-code
+   cfrun <v1 v2 v3> | <45 string channels> | <10 typed channels> | <jwk oracle> | <redis oracle> | <fetch oracle>
          | <json endsession jwks> | <algs> | <acrs> | <locales>   -> outcome class
    string channel: "~" = not supplied, "-" = supplied empty, else hex; typed channel: "~" absent, "!" malformed, else int *)
 open Model
@@ -11,17 +11,20 @@ let cf_sopt t = if t = "~" then None else Some (bytes_of_hex t)
 let cf_topt t = if t = "~" then CfAbsent else if t = "!" then CfBad else CfVal (z_of_string t)
 let cf_hexes l = List.map bytes_of_hex l
 
+(* variant flags as the first three tokens of every line: enc_key_strict wait_nonneg ingress_pattern_strict *)
+let cf_variant_of a b c = mk_cf_variant_of (a = "1") (b = "1") (c = "1")
+
 let () = register "cfkey" (fun toks ->
-  match toks with [k] -> print_z1 (entry_cfkey (bytes_of_hex k)) | _ -> print_endline "?bad cfkey line")
+  match toks with [a; b; c; k] -> print_z1 (entry_cfkey (cf_variant_of a b c) (bytes_of_hex k)) | _ -> print_endline "?bad cfkey line")
 
 let () = register "cfval" (fun toks ->
   match split_bar toks with
-  | [ss; zs] -> print_zs (entry_cfval (cf_hexes ss) (List.map z_of_string zs))
+  | [[a; b; c]; ss; zs] -> print_zs (entry_cfval (cf_variant_of a b c) (cf_hexes ss) (List.map z_of_string zs))
   | _ -> print_endline "?bad cfval line")
 
 let () = register "cfrun" (fun toks ->
   match split_bar toks with
-  | [ss; ts; oj; ored; ofe; [dj; de; dk]; algs; acrs; locs] ->
-    print_z1 (entry_cfrun (List.map cf_sopt ss) (List.map cf_topt ts) (cf_hexes oj) (cf_hexes ored) (cf_hexes ofe)
+  | [[a; b; c]; ss; ts; oj; ored; ofe; [dj; de; dk]; algs; acrs; locs] ->
+    print_z1 (entry_cfrun (cf_variant_of a b c) (List.map cf_sopt ss) (List.map cf_topt ts) (cf_hexes oj) (cf_hexes ored) (cf_hexes ofe)
                 (dj = "1") (de = "1") (dk = "1") (cf_hexes algs) (cf_hexes acrs) (cf_hexes locs))
   | _ -> print_endline "?bad cfrun line")
